@@ -569,7 +569,7 @@ theorem pollExpired_post {s : St} {E : Prop} (now : Nat) (hb : Base s) (hnf : s.
 
 theorem pumpWrite_post {s : St} (now : Nat) (hb : Base s) (hnf : s.t.failed = false) :
     PostR s (pumpWrite s now).1 (∃ a, (pumpWrite s now).2 = .err a) := by
-  refine pumpWrite_cases (motive := fun p => PostR s p.1 (∃ a, p.2 = .err a)) s now ?_ ?_ ?_ ?_ ?_
+  refine pumpWrite_cases (motive := fun p => PostR s p.1 (∃ a, p.2 = .err a)) s now ?_ ?_ ?_ ?_ ?_ ?_
   · intro s1 r1 h1 _
     have p1 := pollWriteRequest_post now hb hnf; rw [h1] at p1
     exact p1.1.toPostR
@@ -584,6 +584,15 @@ theorem pumpWrite_post {s : St} (now : Nat) (hb : Base s) (hnf : s.t.failed = fa
     have p2 := pollWriteCancel_post p1.1.base (p1.1.nf_of hne); rw [h2] at p2
     have hne2 : ¬ ∃ a, r2 = PW.err a := by rintro ⟨a, rfl⟩; simp [PW.isStop] at hn2
     have p3 : Post s2 (pollExpired s2 now).1 (∃ a, (PW.some () : PW Unit) = .err a) :=
+      pollExpired_post now p2.1.base (p2.1.nf_of hne2)
+    rw [h3] at p3
+    exact ((p1.1.andThen p2.1).andThen p3).toPostR
+  · intro s1 r1 s2 r2 s3 h1 hn1 h2 hn2 h3 _
+    have p1 := pollWriteRequest_post now hb hnf; rw [h1] at p1
+    have hne : ¬ ∃ a, r1 = PW.err a := by rintro ⟨a, rfl⟩; simp [PW.isStop] at hn1
+    have p2 := pollWriteCancel_post p1.1.base (p1.1.nf_of hne); rw [h2] at p2
+    have hne2 : ¬ ∃ a, r2 = PW.err a := by rintro ⟨a, rfl⟩; simp [PW.isStop] at hn2
+    have p3 : Post s2 (pollExpired s2 now).1 (∃ a, (PW.spin : PW Unit) = .err a) :=
       pollExpired_post now p2.1.base (p2.1.nf_of hne2)
     rw [h3] at p3
     exact ((p1.1.andThen p2.1).andThen p3).toPostR
@@ -682,10 +691,11 @@ def Flushed (s : St) : Prop := s.t.buffered = [] ∨ s.t.writeWaker = true
 theorem pumpWrite_flushed (s : St) (now : Nat) (h : (pumpWrite s now).2 = .pending ∨ (pumpWrite s now).2 = .none) :
     Flushed (pumpWrite s now).1 := by
   revert h
-  refine pumpWrite_cases (motive := fun p => (p.2 = .pending ∨ p.2 = .none) → Flushed p.1) s now ?_ ?_ ?_ ?_ ?_
+  refine pumpWrite_cases (motive := fun p => (p.2 = .pending ∨ p.2 = .none) → Flushed p.1) s now ?_ ?_ ?_ ?_ ?_ ?_
   · intro s1 r1 _ hs h; rcases h with rfl | rfl <;> simp [PW.isStop] at hs
   · intro s1 r1 s2 r2 _ _ _ hs h; rcases h with rfl | rfl <;> simp [PW.isStop] at hs
   · intro _ _ _ _ _ _ _ _ _ _ h; rcases h with h | h <;> cases h
+  · intro _ _ _ _ _ _ _ _ _ _ _ h; rcases h with h | h <;> cases h
   · intro s1 s2 s3 s4 r4 _ _ _ h4 _
     have e : s4 = (tClose s3).1 ∧ r4 = (tClose s3).2 := by rw [h4]; exact ⟨rfl, rfl⟩
     obtain ⟨rfl, rfl⟩ := e
